@@ -8,9 +8,10 @@ unit of fuel per scanner call.  The byte classes it uses are regenerated from ps
 import PdfVerif.Lemmas.LexerPos
 import PdfVerif.Lemmas.LexerErr
 import PdfVerif.Lemmas.LexCompose
+import PdfVerif.Lemmas.LexScanTie
 
 namespace PdfVerif.Props.C14
-open PdfVerif PdfVerif.Lexer PdfVerif.Gen.LexTables
+open PdfVerif PdfVerif.Lexer PdfVerif.Gen.LexTables PdfVerif.Gen.LexScan
 
 /-- The buffered tokenizer equals the buffer-free byte automaton, for every buffer size ≥ 1. -/
 theorem C14_run_eq_spec (b : Nat) (hb : 1 ≤ b) (data : Bytes) : run b data = some (specLex data) := by
@@ -106,6 +107,32 @@ def mainHitCode (c : UInt8) : Nat :=
 theorem C14_dispatch_tied :
     (∀ c : UInt8, (mainHitCode c == dispatchOf MAIN_DISPATCH c) = true) ∧ kwTrue = KW_TRUE ∧ kwFalse = KW_FALSE :=
   ⟨forall_byte _ (by decide +kernel), by decide, by decide⟩
+
+/-! ### every scanner body is tied to the code regenerated from psparser.py (`Gen/LexScan.lean`) -/
+
+/-- For EVERY parser state, byte and position, what the hand model does at the byte a scanner stops at
+    (`parseMainHit … parseHexstringHit`, dispatched by `atHit`) is the interpretation of that scanner's
+    body as translated from `PSBaseParser._parse_*` on this run (conditions, attribute updates, tokens
+    added, `return k` vs `return k + 1`, escaping ValueError).  An edit of the straight-line code of any
+    of the thirteen scanners changes `Gen/LexScan.lean` and breaks this proof. -/
+theorem C14_scanners_tied (st : St) (c : UInt8) (j : Nat) : atHit st c j = genAtHit st c j :=
+  atHit_eq_gen st c j
+
+/-- The regex every scanner searches the buffer with is the one in its regenerated preamble. -/
+theorem C14_search_tied (m : Mode) : searchClass m = ((scnOfMode m).bind searchRe).map clsFn :=
+  searchClass_eq_gen m
+
+/-- One whole scanner call `self._parse1(buf, charpos)` of the hand model (search, bytes appended to
+    `_curtoken`, body, returned index) equals the call assembled from regenerated parts only; through
+    `C14_run_eq_spec` every theorem of this file is therefore about the regenerated scanners. -/
+theorem C14_call_tied (st : St) (rest : Bytes) (pos : Nat) : call st rest pos = genCall st rest pos :=
+  call_eq_gen st rest pos
+
+/-- Non-vacuity: the regenerated `_parse_string_1` closes a three-digit octal escape with overflow,
+    the regenerated `_parse_literal` call stops at `#`. -/
+example : (genAtHit { mode := .string1, cur := [97], oct := [55, 55, 55] } 41 5).st.cur = [97, 255] := by decide +kernel
+example : (genCall { mode := .literal, cur := [65] } [66, 35, 52] 7).st.mode = .literalHex ∧
+    (genCall { mode := .literal, cur := [65] } [66, 35, 52] 7).pos = 9 := by decide +kernel
 
 /-! ### compositionality: token VALUES of a concatenation (the C05 contents-splitting clause relies on it) -/
 
